@@ -737,52 +737,73 @@ func runC20Once(c *Ctx) {
 			c.anchorMissing("(*" + rule + ").VisitStep")
 			continue
 		}
-		// count paths: every call (transitively on the same rule) to (*externalCommand).run must be outside loops and
-		// each function on the chain must have a single call site of the next
+		// along the chain from VisitStep to (*externalCommand).run: in every function, the calls that start the tool
+		// (of run itself or of a function of the package from which run is reached) are outside loops and no two of
+		// them can execute on one path (several are fine in exclusive branches)
 		total := 0
-		bad := ""
+		var bad []string
 		var visit func(fn *ssa.Function, depth int)
 		seen := map[*ssa.Function]bool{}
 		visit = func(fn *ssa.Function, depth int) {
-			if seen[fn] || depth > 5 || fn.Blocks == nil {
+			if seen[fn] || fn.Blocks == nil {
 				return
 			}
 			seen[fn] = true
+			if depth > 5 {
+				bad = append(bad, "the chain of calls to the tool is longer than followed at "+fn.Name())
+				return
+			}
+			var starts []ssa.CallInstruction
 			eachInstr(fn, func(b *ssa.BasicBlock, _ int, in ssa.Instruction) {
 				call, ok := in.(ssa.CallInstruction)
 				if !ok {
 					return
 				}
 				g := staticCallee(call.Common())
+				if g == nil {
+					// a function value: the closure it was made from, when that is known
+					if mc, isMC := call.Common().Value.(*ssa.MakeClosure); isMC {
+						g, _ = mc.Fn.(*ssa.Function)
+					}
+				}
 				if g == nil || !inPkgName(g) {
 					return
 				}
-				if FuncName(g) == "(*externalCommand).run" {
-					total++
-					if blockInCycle(b) {
-						bad = "the tool is started inside a loop at " + p.Pos(call.Pos())
-					}
+				isRun := FuncName(g) == "(*externalCommand).run"
+				if !isRun && !reachesRun(p, g) {
 					return
 				}
-				if g.Signature.Recv() != nil && pointeeName(g.Signature.Recv().Type()) == rule {
-					if blockInCycle(b) && reachesRun(p, g) {
-						bad = "a function starting the tool is called inside a loop at " + p.Pos(call.Pos())
+				starts = append(starts, call)
+				if blockInCycle(b) {
+					what := "a function starting the tool is called"
+					if isRun {
+						what = "the tool is started"
 					}
-					visit(g, depth+1)
+					bad = append(bad, what+" inside a loop at "+p.Pos(call.Pos()))
 				}
+				if isRun {
+					total++
+					return
+				}
+				visit(g, depth+1)
 			})
+			for i, a := range starts {
+				for _, b := range starts[i+1:] {
+					if instrReachableAfter(a, b) || instrReachableAfter(b, a) {
+						bad = append(bad, "the calls at "+p.Pos(a.Pos())+" and "+p.Pos(b.Pos())+" in "+fn.Name()+" both start the tool on one path")
+					}
+				}
+			}
 		}
 		visit(vs, 0)
 		construct := "(*" + rule + ").VisitStep|tool started at most once"
 		switch {
-		case bad != "":
-			c.bad(construct, vs.Pos(), bad+": a script can be passed to the tool several times")
+		case len(bad) > 0:
+			c.bad(construct, vs.Pos(), strings.Join(bad, "; ")+": a script can be passed to the tool several times")
 		case total == 0:
 			c.bad(construct, vs.Pos(), "VisitStep never reaches (*externalCommand).run: scripts are not passed to the tool at all")
-		case total > 1:
-			c.bad(construct, vs.Pos(), fmt.Sprintf("%d call sites start the tool for one step", total))
 		default:
-			c.ok(construct, vs.Pos(), "exactly one call site of (*externalCommand).run is reachable, outside any loop")
+			c.ok(construct, vs.Pos(), fmt.Sprintf("%d call site(s) of (*externalCommand).run reachable, outside any loop, no two of them or of the calls leading to them on one path", total))
 		}
 	}
 }
